@@ -18,6 +18,8 @@ type Env struct {
 	vars    map[string]Value
 	pos     bool // true: expression is a proof goal; false: an assumption
 	isOld   bool // evaluating in a past state: SSA-value name bindings are not valid
+	atCallSite bool // evaluating a callee's contract at a call site
+	ghostFromOld bool // ghost globals read their pre-call value (ghostset right-hand sides)
 	pkgName string
 	depth   int
 }
@@ -44,6 +46,21 @@ func (env *Env) evalBool(x Expr) T {
 		env.fail("expected boolean expression, got %T", v)
 	}
 	return b.T
+}
+
+// tryEvalBool evaluates a boolean contract expression, returning contract
+// errors instead of raising them.
+func (env *Env) tryEvalBool(x Expr) (t T, cerr string) {
+	defer func() {
+		if r := recover(); r != nil {
+			if ce, ok := r.(contractError); ok {
+				cerr = ce.msg
+				return
+			}
+			panic(r)
+		}
+	}()
+	return env.evalBool(x), ""
 }
 
 func (env *Env) pcHas(t T) bool {
@@ -91,6 +108,9 @@ func (env *Env) lookupIdent(name string) (Value, bool) {
 		return v, true
 	}
 	if strings.HasPrefix(name, "g_") {
+		if env.ghostFromOld && env.old != nil {
+			return env.e.ghostGlobal(env.old, name), true
+		}
 		return env.e.ghostGlobal(env.st, name), true
 	}
 	if env.fr != nil {
@@ -805,6 +825,10 @@ func (env *Env) evalCall(n *ECall) Value {
 		env.fail("iszero of %T", v)
 	case "traced":
 		// traced("a","b",...) : the ghost event trace contains these events as a subsequence
+		if !env.pos && env.atCallSite {
+			// a callee's event facts say nothing about the caller's own trace
+			return VBool{e.fresh("traced?", BoolSort)}
+		}
 		var want []string
 		for _, a := range n.Args {
 			s, ok := a.(*EStr)
@@ -825,6 +849,9 @@ func (env *Env) evalCall(n *ECall) Value {
 		return VBool{False}
 	case "nevent":
 		argn(1)
+		if !env.pos && env.atCallSite {
+			return VInt{T: e.fresh("nevent?", BV64), Signed: true}
+		}
 		s, ok := n.Args[0].(*EStr)
 		if !ok {
 			env.fail("nevent expects a string literal")
@@ -838,6 +865,9 @@ func (env *Env) evalCall(n *ECall) Value {
 		return VInt{T: i64(int64(c)), Signed: true, Untyped: true}
 	case "effect":
 		argn(1)
+		if !env.pos && env.atCallSite {
+			return VBool{e.fresh("effect?", BoolSort)}
+		}
 		s, ok := n.Args[0].(*EStr)
 		if !ok {
 			env.fail("effect expects a string literal")
